@@ -15,7 +15,7 @@ theorem recGood_bottom : RecGood Rec.bottom :=
   ⟨fun _ _ => good_outOfFuel, fun _ _ => good_outOfFuel, fun _ _ => good_outOfFuel⟩
 
 /-- closes `Good` goals built from binds, ifs and matches over known-good pieces -/
-macro "good_tac" : tactic => `(tactic| repeat (first
+macro "good_step" : tactic => `(tactic| with_reducible (first
   | exact good_pure _
   | exact good_fail _
   | exact good_crash _
@@ -36,32 +36,643 @@ macro "good_tac" : tactic => `(tactic| repeat (first
   | exact good_writeLit _
   | exact good_printEscaped _ _
   | exact good_printSafe _ _
-  | assumption
-  | apply_assumption
   | apply Good.bind
-  | (show ∀ _, Good _; intro _)
-  | split))
+  | apply good_withNewScopeD
+  | apply good_withNewScopeND
+  | apply good_withCtxND
+  | apply good_withContentND
+  | apply good_withScopeContentND
+  | apply good_withCtxD
+  | apply good_withWriterD_discard
+  | intro _))
+
+syntax "good_tac" (" [" term,* "]")? : tactic
+macro_rules
+  | `(tactic| good_tac) => `(tactic| repeat (first | good_step | split | dsimp only))
+  | `(tactic| good_tac [$h0]) => `(tactic| repeat (first | good_step | (with_reducible apply $h0) | split | dsimp only))
+  | `(tactic| good_tac [$h0, $h1]) => `(tactic| repeat (first | good_step | (with_reducible apply $h0) | (with_reducible apply $h1) | split | dsimp only))
+  | `(tactic| good_tac [$h0, $h1, $h2]) => `(tactic| repeat (first | good_step | (with_reducible apply $h0) | (with_reducible apply $h1) | (with_reducible apply $h2) | split | dsimp only))
+  | `(tactic| good_tac [$h0, $h1, $h2, $h3]) => `(tactic| repeat (first | good_step | (with_reducible apply $h0) | (with_reducible apply $h1) | (with_reducible apply $h2) | (with_reducible apply $h3) | split | dsimp only))
+  | `(tactic| good_tac [$h0, $h1, $h2, $h3, $h4]) => `(tactic| repeat (first | good_step | (with_reducible apply $h0) | (with_reducible apply $h1) | (with_reducible apply $h2) | (with_reducible apply $h3) | (with_reducible apply $h4) | split | dsimp only))
+  | `(tactic| good_tac [$h0, $h1, $h2, $h3, $h4, $h5]) => `(tactic| repeat (first | good_step | (with_reducible apply $h0) | (with_reducible apply $h1) | (with_reducible apply $h2) | (with_reducible apply $h3) | (with_reducible apply $h4) | (with_reducible apply $h5) | split | dsimp only))
+  | `(tactic| good_tac [$h0, $h1, $h2, $h3, $h4, $h5, $h6]) => `(tactic| repeat (first | good_step | (with_reducible apply $h0) | (with_reducible apply $h1) | (with_reducible apply $h2) | (with_reducible apply $h3) | (with_reducible apply $h4) | (with_reducible apply $h5) | (with_reducible apply $h6) | split | dsimp only))
 
 variable {r : Rec}
 
 theorem good_Args_exprAt (hr : RecGood r) (env : Env) (a : Args) (j : Nat) : Good (a.exprAt r env j) := by
   have he := hr.evalExpr env
   unfold Args.exprAt
-  good_tac
+  good_tac [he]
 
 theorem good_Args_get (hr : RecGood r) (env : Env) (a : Args) (i : Nat) : Good (a.get r env i) := by
   have he := good_Args_exprAt hr env a
   unfold Args.get
-  good_tac
+  good_tac [he]
 
 theorem good_Args_isSetAt (hr : RecGood r) (env : Env) (a : Args) (j : Nat) : Good (a.isSetAt r env j) := by
   have he := hr.isSetE env
   unfold Args.isSetAt
-  good_tac
+  good_tac [he]
 
 theorem good_Args_isSet (hr : RecGood r) (env : Env) (a : Args) (i : Nat) : Good (a.isSet r env i) := by
   have he := good_Args_isSetAt hr env a
   unfold Args.isSet
-  good_tac
+  good_tac [he]
+
+theorem good_evalArgsLoop (hr : RecGood r) (env : Env) (sig : Sig) (a : Args) :
+    ∀ es slot acc, Good (evalArgsLoop r env sig a es slot acc) := by
+  have he := hr.evalExpr env
+  intro es
+  induction es with
+  | nil => intro slot acc; unfold evalArgsLoop; good_tac
+  | cons e rest ih =>
+    intro slot acc
+    unfold evalArgsLoop
+    good_tac [he, ih]
+
+theorem good_evaluateArgs (hr : RecGood r) (env : Env) (sig : Sig) (a : Args) :
+    Good (evaluateArgs r env sig a) := by
+  have hl := good_evalArgsLoop hr env sig a
+  unfold evaluateArgs
+  good_tac [hl]
+
+theorem good_issetLoop (hr : RecGood r) (env : Env) (a : Args) : ∀ f i, Good (issetLoop r env a f i) := by
+  have hs := good_Args_isSet hr env a
+  intro f
+  induction f with
+  | zero => intro i; unfold issetLoop; good_tac
+  | succ f ih => intro i; unfold issetLoop; good_tac [hs, ih]
+
+theorem good_sliceLoop (hr : RecGood r) (env : Env) (a : Args) : ∀ f i acc, Good (sliceLoop r env a f i acc) := by
+  have hg := good_Args_get hr env a
+  intro f
+  induction f with
+  | zero => intro i acc; unfold sliceLoop; good_tac
+  | succ f ih => intro i acc; unfold sliceLoop; good_tac [hg, ih]
+
+theorem good_mapLoop (hr : RecGood r) (env : Env) (a : Args) : ∀ f i acc, Good (mapLoop r env a f i acc) := by
+  have hg := good_Args_get hr env a
+  intro f
+  induction f with
+  | zero => intro i acc; unfold mapLoop; good_tac
+  | succ f ih => intro i acc; unfold mapLoop; good_tac [hg, ih]
+
+theorem good_recLoop (hr : RecGood r) (env : Env) (a : Args) : ∀ f i acc, Good (recLoop r env a f i acc) := by
+  have hg := good_Args_get hr env a
+  intro f
+  induction f with
+  | zero => intro i acc; unfold recLoop; good_tac
+  | succ f ih => intro i acc; unfold recLoop; good_tac [hg, ih]
+
+theorem good_execBuiltin (hr : RecGood r) (env : Env) (isExec : Bool) (a : Args) :
+    Good (execBuiltin r env isExec a) := by
+  have hg := good_Args_get hr env a
+  have hl := hr.execList env
+  unfold execBuiltin
+  good_tac [hg, hl]
+
+set_option maxHeartbeats 1600000 in
+theorem good_applyJetFunc (hr : RecGood r) (env : Env) (id : String) (a : Args) :
+    Good (applyJetFunc r env id a) := by
+  have hg := good_Args_get hr env a
+  have h1 := good_issetLoop hr env a
+  have h2 := good_sliceLoop hr env a
+  have h3 := good_mapLoop hr env a
+  have h4 := good_recLoop hr env a
+  have h5 := good_execBuiltin hr env
+  unfold applyJetFunc
+  dsimp only
+  repeat (first | split | good_step | (with_reducible apply hg) | (with_reducible apply h1) | (with_reducible apply h2) | (with_reducible apply h3) | (with_reducible apply h4) | (with_reducible apply h5))
+
+theorem good_modify_log (f : List LogE → List LogE) :
+    Good (modifyRT fun rt => { rt with log := f rt.log }) := by
+  apply good_modify; intro rt; simp
+
+theorem good_callValue (hr : RecGood r) (env : Env) (fn : Val) (a : Args) : Good (callValue r env fn a) := by
+  have h1 := good_applyJetFunc hr env
+  have h2 := good_evaluateArgs hr env
+  have h3 : ∀ logs : List LogE, Good (modifyRT fun rt => { rt with log := logs.reverse ++ rt.log }) :=
+    fun logs => good_modify_log (fun l => logs.reverse ++ l)
+  unfold callValue
+  good_tac [h1, h2, h3]
+
+theorem good_callAt (hr : RecGood r) (env : Env) (loc : Loc) (fn : Val) (a : Args) :
+    Good (callAt r env loc fn a) := by
+  have h1 := good_callValue hr env
+  unfold callAt
+  good_tac [h1]
+
+theorem good_evalExprF (hr : RecGood r) (env : Env) (e : Expr) : Good (evalExprF r env e) := by
+  have he := hr.evalExpr env
+  have hc := good_callAt hr env
+  have hres := good_resolve env
+  unfold evalExprF
+  good_tac [he, hc, hres]
+
+theorem good_isSetBody (hr : RecGood r) (env : Env) (e : Expr) : Good (isSetBody r env e) := by
+  have he := hr.evalExpr env
+  have hs := hr.isSetE env
+  have hres := good_resolve env
+  unfold isSetBody
+  good_tac [he, hs, hres]
+
+theorem good_isSetF (hr : RecGood r) (env : Env) (e : Expr) : Good (isSetF r env e) :=
+  good_recoverFalse (good_isSetBody hr env e)
+
+theorem good_executeSet (hr : RecGood r) (env : Env) (l : Expr) (v : Val) : Good (executeSet r env l v) := by
+  have he := hr.evalExpr env
+  unfold executeSet
+  good_tac [he]
+
+theorem good_assignOne (hr : RecGood r) (env : Env) (isLet : Bool) (l : Expr) (v : Val) :
+    Good (assignOne r env isLet l v) := by
+  have h1 := good_executeSet hr env
+  unfold assignOne
+  good_tac [h1]
+
+theorem good_assignLoop (hr : RecGood r) (env : Env) (isLet : Bool) :
+    ∀ ls rs, Good (assignLoop r env isLet ls rs) := by
+  have he := hr.evalExpr env
+  have h1 := good_assignOne hr env isLet
+  intro ls
+  induction ls with
+  | nil => intro rs; unfold assignLoop; good_tac
+  | cons l ls ih =>
+    intro rs
+    cases rs with
+    | nil => unfold assignLoop; good_tac
+    | cons rgt rs => unfold assignLoop; good_tac [he, h1, ih]
+
+theorem good_executeAssign (hr : RecGood r) (env : Env) (s : SetN) : Good (executeAssign r env s) := by
+  have he := hr.evalExpr env
+  have h1 := good_assignOne hr env s.isLet
+  have h2 := good_assignLoop hr env s.isLet
+  unfold executeAssign
+  good_tac [he, h1, h2]
+
+theorem good_safeWriterLoop (hr : RecGood r) (env : Env) (sw : String) :
+    ∀ es, Good (safeWriterLoop r env sw es) := by
+  have he := hr.evalExpr env
+  intro es
+  induction es with
+  | nil => unfold safeWriterLoop; good_tac
+  | cons e rest ih => unfold safeWriterLoop; good_tac [he, ih]
+
+theorem good_evalSafeWriter (hr : RecGood r) (env : Env) (sw : String) (piped : Option Val) (args : List Expr) :
+    Good (evalSafeWriter r env sw piped args) := by
+  have h1 := good_safeWriterLoop hr env sw
+  unfold evalSafeWriter
+  good_tac [h1]
+
+theorem good_evalCommand (hr : RecGood r) (env : Env) (c : Cmd) : Good (evalCommand r env c) := by
+  have he := hr.evalExpr env
+  have h1 := good_evalSafeWriter hr env
+  have h2 := good_callAt hr env
+  unfold evalCommand
+  good_tac [he, h1, h2]
+
+theorem good_evalCommandPipe (hr : RecGood r) (env : Env) (c : Cmd) (v : Val) :
+    Good (evalCommandPipe r env c v) := by
+  have he := hr.evalExpr env
+  have h1 := good_evalSafeWriter hr env
+  have h2 := good_callAt hr env
+  unfold evalCommandPipe
+  good_tac [he, h1, h2]
+
+theorem good_pipelineLoop (hr : RecGood r) (env : Env) : ∀ cs acc, Good (pipelineLoop r env acc cs) := by
+  have h1 := good_evalCommandPipe hr env
+  intro cs
+  induction cs with
+  | nil => intro acc; unfold pipelineLoop; good_tac
+  | cons c cs ih => intro acc; unfold pipelineLoop; good_tac [h1, ih]
+
+theorem good_evalPipeline (hr : RecGood r) (env : Env) (p : Pipe) : Good (evalPipeline r env p) := by
+  have h1 := good_evalCommand hr env
+  have h2 := good_pipelineLoop hr env
+  unfold evalPipeline
+  good_tac [h1, h2]
+
+theorem good_invokeContent (hr : RecGood r) (env : Env) (c : Closure) (ctxE : Option Expr) :
+    Good (invokeContent r env c ctxE) := by
+  have he := hr.evalExpr env
+  have hl := hr.execList env
+  unfold invokeContent
+  good_tac [he, hl]
+
+theorem good_bindYieldParams (hr : RecGood r) (env : Env) (loc : Loc) :
+    ∀ ps, Good (bindYieldParams r env loc ps) := by
+  have he := hr.evalExpr env
+  intro ps
+  induction ps with
+  | nil => unfold bindYieldParams; good_tac
+  | cons p ps ih => unfold bindYieldParams; good_tac [he, ih]
+
+theorem good_bindBlockParams (hr : RecGood r) (env : Env) : ∀ ps, Good (bindBlockParams r env ps) := by
+  have he := hr.evalExpr env
+  intro ps
+  induction ps with
+  | nil => unfold bindBlockParams; good_tac
+  | cons p ps ih => unfold bindBlockParams; good_tac [he, ih]
+
+theorem good_yieldBody (hr : RecGood r) (env : Env) (block : BlockN) (ctxE : Option Expr)
+    (content : Option (List Stmt)) : Good (yieldBody r env block ctxE content) := by
+  have he := hr.evalExpr env
+  have hl := hr.execList env
+  unfold yieldBody
+  good_tac [he, hl]
+
+theorem good_executeYieldBlock (hr : RecGood r) (env : Env) (loc : Loc) (block : BlockN)
+    (bp yp : List Param) (ctxE : Option Expr) (content : Option (List Stmt)) :
+    Good (executeYieldBlock r env loc block bp yp ctxE content) := by
+  have h1 := good_bindYieldParams hr env loc
+  have h2 := good_bindBlockParams hr env
+  have h3 := good_yieldBody hr env
+  unfold executeYieldBlock
+  good_tac [h1, h2, h3]
+
+theorem good_executeInclude (hr : RecGood r) (env : Env) (loc : Loc) (nameE : Expr) (ctxE : Option Expr) :
+    Good (executeInclude r env loc nameE ctxE) := by
+  have he := hr.evalExpr env
+  have hl := hr.execList env
+  unfold executeInclude
+  good_tac [he, hl]
+
+theorem good_rangeBind (hr : RecGood r) (env : Env) (set : Option SetN) (slot : Option Nat) (v : Val) :
+    Good (rangeBind r env set slot v) := by
+  have h1 := good_executeSet hr env
+  unfold rangeBind
+  good_tac [h1]
+
+theorem good_rangeLoop (hr : RecGood r) (env : Env) (set : Option SetN) (ks vs : Option Nat)
+    (body : List Stmt) (els : Option (List Stmt)) :
+    ∀ f st first, Good (rangeLoop r env set ks vs body els f st first) := by
+  have hl := hr.execList env
+  have hb := good_rangeBind hr env set
+  intro f
+  induction f with
+  | zero => intro st first; unfold rangeLoop; good_tac
+  | succ f ih => intro st first; unfold rangeLoop; good_tac [hl, hb, ih]
+
+theorem good_rangeCore (hr : RecGood r) (env : Env) (loc : Loc) (set : Option SetN) (ex : Val)
+    (body : List Stmt) (els : Option (List Stmt)) : Good (rangeCore r env loc set ex body els) := by
+  have h1 := good_rangeLoop hr env set
+  unfold rangeCore
+  good_tac [h1]
+
+theorem good_execRange (hr : RecGood r) (env : Env) (loc : Loc) (set : Option SetN) (e : Option Expr)
+    (body : List Stmt) (els : Option (List Stmt)) : Good (execRange r env loc set e body els) := by
+  have he := hr.evalExpr env
+  have h1 := good_rangeCore hr env loc set
+  unfold execRange
+  good_tac [he, h1]
+
+theorem good_tryCatch (hr : RecGood r) (env : Env) (hasCatch : Bool) (cv : Option Bytes)
+    (cb : Option (List Stmt)) (errVal : Val) : Good (tryCatch r env hasCatch cv cb errVal) := by
+  have hl := hr.execList env
+  unfold tryCatch
+  good_tac [hl]
+
+theorem wf_tryStart (rt : RT) : WF (tryStart rt) := by
+  intro k hk
+  simp [tryStart, Wr.idx] at hk
+  subst hk
+  exact Nat.le_refl _
+
+/-- every sink that existed before the try is untouched by the body -/
+theorem tryStart_old_untouched {rt rt2 : RT} (e : Ext (tryStart rt) rt2) (k : Nat) (hk : k ≤ rt.nbufs) :
+    rt2.sink k = rt.sink k := by
+  have h1 : rt2.sink k = (tryStart rt).sink k := by
+    apply e.other k
+    · simp [tryStart]; omega
+    · simp [tryStart, Wr.idx]; omega
+  rw [h1]
+  have : k ≠ rt.nbufs + 1 := by omega
+  simp [tryStart, this]
+
+theorem tryStart_nbufs {rt rt2 : RT} (e : Ext (tryStart rt) rt2) : rt.nbufs ≤ rt2.nbufs := by
+  have := e.nbufs
+  simp [tryStart] at this
+  omega
+
+/-- after a failed body, nothing of it is visible: sinks, scope, context, content, writer -/
+theorem tryReset_ext {rt rt2 : RT} (hwf : WF rt) (e : Ext (tryStart rt) rt2) :
+    Ext rt (tryReset rt rt2) ∧ Rest rt (tryReset rt rt2) := by
+  have hn : rt.nbufs ≤ rt2.nbufs := tryStart_nbufs e
+  have ho : ∀ k, k ≤ rt.nbufs → rt2.sink k = rt.sink k := fun k hk => tryStart_old_untouched e k hk
+  refine ⟨⟨rfl, hn, ?_, ?_⟩, ⟨rfl, rfl, rfl⟩⟩
+  · intro k hk
+    exact ⟨[], by simp [tryReset, ho k (hwf k hk)]⟩
+  · intro k hk _
+    simp [tryReset, ho k hk]
+
+/-- copying the try buffer to the saved destination extends exactly that destination -/
+theorem tryCopy_ext {rt rt2 : RT} (hwf : WF rt) (e : Ext (tryStart rt) rt2) (cs : List Chunk) :
+    Ext rt (appendTo { rt2 with writer := rt.writer } rt.writer cs) := by
+  have hn : rt.nbufs ≤ rt2.nbufs := tryStart_nbufs e
+  have ho : ∀ k, k ≤ rt.nbufs → rt2.sink k = rt.sink k := fun k hk => tryStart_old_untouched e k hk
+  unfold appendTo
+  split
+  · rename_i hidx
+    refine ⟨rfl, hn, ?_, ?_⟩
+    · intro k hk; rw [hidx] at hk; cases hk
+    · intro k hk _; exact ho k hk
+  · rename_i kw hidx
+    refine ⟨rfl, hn, ?_, ?_⟩
+    · intro k hk
+      rw [hidx] at hk; cases hk
+      exact ⟨cs.reverse, by simp [ho kw (hwf kw hidx)]⟩
+    · intro k hk hne
+      rw [hidx] at hne
+      have : k ≠ kw := fun h => hne (by rw [h])
+      simp [this, ho k hk]
+
+theorem appendTo_rest (rt : RT) (w : Wr) (cs : List Chunk) :
+    (appendTo rt w cs).scope = rt.scope ∧ (appendTo rt w cs).ctx = rt.ctx ∧ (appendTo rt w cs).content = rt.content := by
+  unfold appendTo
+  split <;> exact ⟨rfl, rfl, rfl⟩
+
+/-- `executeTry`: whatever happens in the body, the statement as a whole extends only the current
+    destination and restores scope, context and content -/
+theorem good_executeTry (hr : RecGood r) (env : Env) (body : List Stmt) (hasCatch : Bool)
+    (cv : Option Bytes) (cb : Option (List Stmt)) : Good (executeTry r env body hasCatch cv cb) := by
+  have hl := hr.execList env
+  refine ⟨fun rt hwf => ?_⟩
+  unfold executeTry
+  have hb := (hl body).post (tryStart rt) (wf_tryStart rt)
+  have handler : ∀ (errVal : Val) (rt2 : RT), Ext (tryStart rt) rt2 →
+      Post rt (tryCatch r env hasCatch cv cb errVal (tryReset rt rt2)) := by
+    intro errVal rt2 e
+    obtain ⟨eb, rb⟩ := tryReset_ext hwf e
+    have hp := (good_tryCatch hr env hasCatch cv cb errVal).post _ (eb.wf hwf)
+    cases hres : tryCatch r env hasCatch cv cb errVal (tryReset rt rt2) with
+    | ok v rt3 => rw [hres] at hp; exact ⟨eb.trans hp.1, rb.trans hp.2⟩
+    | err e3 rt3 => rw [hres] at hp; exact eb.trans hp
+    | crash s rt3 => rw [hres] at hp; exact eb.trans hp
+    | fuel => trivial
+    | unsupported w => trivial
+  cases hbr : r.execList env body (tryStart rt) with
+  | ok v rt2 =>
+    rw [hbr] at hb
+    -- success: the buffer is copied to the saved destination
+    have hs : rt2.scope = rt.scope := hb.2.scope
+    have hc : rt2.ctx = rt.ctx := hb.2.ctx
+    have hct : rt2.content = rt.content := hb.2.content
+    obtain ⟨a1, a2, a3⟩ := appendTo_rest { rt2 with writer := rt.writer } rt.writer (rt2.sink (rt.nbufs + 1)).reverse
+    exact ⟨tryCopy_ext hwf hb.1 _, ⟨a1.trans hs, a2.trans hc, a3.trans hct⟩⟩
+  | err e rt2 => rw [hbr] at hb; exact handler _ rt2 hb
+  | crash s rt2 => rw [hbr] at hb; exact handler _ rt2 hb
+  | fuel => trivial
+  | unsupported w => trivial
+
+theorem good_actionPipe (hr : RecGood r) (env : Env) (pipe : Option Pipe) : Good (actionPipe r env pipe) := by
+  have h1 := good_evalPipeline hr env
+  unfold actionPipe
+  good_tac [h1]
+
+/-- relation between the let-scope flag of a list and its scope chain -/
+def OpenRel (b b' : Bool) (rt rt' : RT) : Prop :=
+  (b' = b ∧ rt'.scope = rt.scope) ∨ (b = false ∧ b' = true ∧ rt'.scope.tail = rt.scope)
+
+def PostOpen (b : Bool) (rt : RT) : Res Bool → Prop
+  | .ok b' rt' => Ext rt rt' ∧ rt'.ctx = rt.ctx ∧ rt'.content = rt.content ∧ OpenRel b b' rt rt'
+  | .err _ rt' => Ext rt rt'
+  | .crash _ rt' => Ext rt rt'
+  | _ => True
+
+theorem post_actionSet (hr : RecGood r) (env : Env) (b : Bool) (set : Option SetN) (rt : RT) (hwf : WF rt) :
+    PostOpen b rt (actionSet r env b set rt) := by
+  have ha := good_executeAssign hr env
+  unfold actionSet
+  -- a Good computation followed by `pure c` keeps the scope chain
+  have keep : ∀ (m : M Unit) (c : Bool), Good m → c = b → PostOpen b rt ((do m; pure c : M Bool) rt) := by
+    intro m c hm hc
+    have h := hm.post rt hwf
+    cases hmr : m rt with
+    | ok u rt' =>
+      rw [hmr] at h
+      rw [bind_ok hmr]
+      exact ⟨h.1, h.2.ctx, h.2.content, .inl ⟨hc, h.2.scope⟩⟩
+    | err e rt' => rw [hmr] at h; rw [bind_err hmr]; exact h
+    | crash s rt' => rw [hmr] at h; rw [bind_crash hmr]; exact h
+    | fuel => rw [bind_fuel hmr]; trivial
+    | unsupported w => rw [bind_unsupported hmr]; trivial
+  cases set with
+  | none => exact ⟨Ext.refl rt, rfl, rfl, .inl ⟨rfl, rfl⟩⟩
+  | some st =>
+    dsimp only
+    split
+    · split
+      · -- opens the list's scope
+        rename_i hb
+        have hbf : b = false := by cases b <;> simp_all
+        rcases newScope_cases rt with ⟨rt1, hn, hs, hsame⟩ | ⟨s, hn⟩
+        · rw [bind_ok hn]
+          have h := (ha st).post rt1 (hsame.wf hwf)
+          cases hmr : executeAssign r env st rt1 with
+          | ok u rt2 =>
+            rw [hmr] at h
+            rw [bind_ok hmr]
+            refine ⟨Ext.of_left hsame h.1, ?_, ?_, .inr ⟨hbf, rfl, ?_⟩⟩
+            · show rt2.ctx = rt.ctx; rw [h.2.ctx, hsame.1]
+            · show rt2.content = rt.content; rw [h.2.content, hsame.2.1]
+            · show rt2.scope.tail = rt.scope; rw [h.2.scope, hs]
+          | err e rt2 => rw [hmr] at h; rw [bind_err hmr]; exact Ext.of_left hsame h
+          | crash s rt2 => rw [hmr] at h; rw [bind_crash hmr]; exact Ext.of_left hsame h
+          | fuel => rw [bind_fuel hmr]; trivial
+          | unsupported w => rw [bind_unsupported hmr]; trivial
+        · rw [bind_crash hn]; exact Ext.refl rt
+      · rename_i hb
+        have hbt : b = true := by cases b <;> simp_all
+        exact keep _ true (ha st) hbt.symm
+    · exact keep _ b (ha st) rfl
+
+def PostStmt (b : Bool) (rt : RT) : Res (Val × Val × Bool) → Prop
+  | .ok x rt' => Ext rt rt' ∧ rt'.ctx = rt.ctx ∧ rt'.content = rt.content ∧ OpenRel b x.2.2 rt rt'
+  | .err _ rt' => Ext rt rt'
+  | .crash _ rt' => Ext rt rt'
+  | _ => True
+
+/-- a statement that is `Good` and hands the flag through unchanged -/
+theorem postStmt_of_good {m : M Val} (hm : Good m) (f : Val → Val × Val) (b : Bool) (rt : RT) (hwf : WF rt) :
+    PostStmt b rt ((do let v ← m; pure ((f v).1, (f v).2, b) : M (Val × Val × Bool)) rt) := by
+  have h := hm.post rt hwf
+  cases hmr : m rt with
+  | ok v rt' =>
+    rw [hmr] at h; rw [bind_ok hmr]
+    exact ⟨h.1, h.2.ctx, h.2.content, .inl ⟨rfl, h.2.scope⟩⟩
+  | err e rt' => rw [hmr] at h; rw [bind_err hmr]; exact h
+  | crash s rt' => rw [hmr] at h; rw [bind_crash hmr]; exact h
+  | fuel => rw [bind_fuel hmr]; trivial
+  | unsupported w => rw [bind_unsupported hmr]; trivial
+
+theorem good_ifBranches (hr : RecGood r) (env : Env) (c : Expr) (t : List Stmt) (e : Option (List Stmt)) :
+    Good (ifBranches r env c t e) := by
+  have he := hr.evalExpr env
+  have hl := hr.execList env
+  unfold ifBranches
+  good_tac [he, hl]
+
+theorem good_execIf (hr : RecGood r) (env : Env) (set : Option SetN) (c : Expr) (t : List Stmt)
+    (e : Option (List Stmt)) : Good (execIf r env set c t e) := by
+  have h1 := good_ifBranches hr env
+  have h2 := good_executeAssign hr env
+  unfold execIf
+  good_tac [h1, h2]
+
+theorem good_execYield (hr : RecGood r) (env : Env) (loc : Loc) (name : Bytes) (params : Option (List Param))
+    (ctxE : Option Expr) (content : Option (List Stmt)) (isContent : Bool) :
+    Good (execYield r env loc name params ctxE content isContent) := by
+  have h1 := good_invokeContent hr env
+  have h2 := good_executeYieldBlock hr env
+  unfold execYield
+  good_tac [h1, h2]
+
+theorem good_execBlock (hr : RecGood r) (env : Env) (loc : Loc) (name : Bytes) (params : List Param)
+    (ctxE : Option Expr) (body : List Stmt) (content : Option (List Stmt)) :
+    Good (execBlock r env loc name params ctxE body content) := by
+  have h2 := good_executeYieldBlock hr env
+  unfold execBlock
+  good_tac [h2]
+
+/-- a `Good` computation whose result is mapped to a statement result with the flag unchanged -/
+theorem postStmt_map {α} {m : M α} (hm : Good m) (k : α → Val × Val × Bool) (b : Bool)
+    (hk : ∀ a, (k a).2.2 = b) (rt : RT) (hwf : WF rt) :
+    PostStmt b rt ((m >>= fun a => pure (k a)) rt) := by
+  have h := hm.post rt hwf
+  cases hmr : m rt with
+  | ok v rt' =>
+    rw [hmr] at h; rw [bind_ok hmr]
+    exact ⟨h.1, h.2.ctx, h.2.content, .inl ⟨hk v, h.2.scope⟩⟩
+  | err e rt' => rw [hmr] at h; rw [bind_err hmr]; exact h
+  | crash s rt' => rw [hmr] at h; rw [bind_crash hmr]; exact h
+  | fuel => rw [bind_fuel hmr]; trivial
+  | unsupported w => rw [bind_unsupported hmr]; trivial
+
+theorem post_execStmt (hr : RecGood r) (env : Env) (b : Bool) (s : Stmt) (rt : RT) (hwf : WF rt) :
+    PostStmt b rt (execStmt r env b s rt) := by
+  cases s with
+  | text loc bts =>
+    exact postStmt_map (good_writeLit bts) (fun _ => (.invalid, .invalid, b)) b (fun _ => rfl) rt hwf
+  | action loc set pipe =>
+    unfold execStmt
+    dsimp only
+    have h1 := post_actionSet hr env b set rt hwf
+    cases hs : actionSet r env b set rt with
+    | ok ins rt1 =>
+      rw [hs] at h1
+      rw [bind_ok hs]
+      obtain ⟨e1, c1, ct1, o1⟩ := h1
+      have h2 := (good_actionPipe hr env pipe).post rt1 (e1.wf hwf)
+      cases hp : actionPipe r env pipe rt1 with
+      | ok u rt2 =>
+        rw [hp] at h2
+        rw [bind_ok hp]
+        refine ⟨e1.trans h2.1, h2.2.ctx.trans c1, h2.2.content.trans ct1, ?_⟩
+        rcases o1 with ⟨hb, hsc⟩ | ⟨hb, hb', hsc⟩
+        · exact .inl ⟨hb, h2.2.scope.trans hsc⟩
+        · exact .inr ⟨hb, hb', by rw [h2.2.scope]; exact hsc⟩
+      | err e rt2 => rw [hp] at h2; rw [bind_err hp]; exact e1.trans h2
+      | crash s rt2 => rw [hp] at h2; rw [bind_crash hp]; exact e1.trans h2
+      | fuel => rw [bind_fuel hp]; trivial
+      | unsupported w => rw [bind_unsupported hp]; trivial
+    | err e rt1 => rw [hs] at h1; rw [bind_err hs]; exact h1
+    | crash s rt1 => rw [hs] at h1; rw [bind_crash hs]; exact h1
+    | fuel => rw [bind_fuel hs]; trivial
+    | unsupported w => rw [bind_unsupported hs]; trivial
+  | ifS loc set cond thn els =>
+    exact postStmt_map (good_execIf hr env set cond thn els) (fun ret => (ret, .invalid, b)) b (fun _ => rfl) rt hwf
+  | rangeS loc set e body els =>
+    exact postStmt_map (good_execRange hr env loc set e body els) (fun ret => (ret, .invalid, b)) b (fun _ => rfl) rt hwf
+  | block loc name params ctx body content =>
+    exact postStmt_map (good_execBlock hr env loc name params ctx body content) (fun _ => (.invalid, .invalid, b)) b (fun _ => rfl) rt hwf
+  | yield loc name params ctx content isContent =>
+    exact postStmt_map (good_execYield hr env loc name params ctx content isContent) (fun _ => (.invalid, .invalid, b)) b (fun _ => rfl) rt hwf
+  | «include» loc name ctx =>
+    exact postStmt_map (good_executeInclude hr env loc name ctx) (fun ret => (ret, .invalid, b)) b (fun _ => rfl) rt hwf
+  | tryS loc body hc cv cb =>
+    exact postStmt_map (good_executeTry hr env body hc cv cb) (fun ret => (ret, .invalid, b)) b (fun _ => rfl) rt hwf
+  | ret loc e =>
+    exact postStmt_map (hr.evalExpr env e) (fun v => (.invalid, v, b)) b (fun _ => rfl) rt hwf
+
+def PostGo (b : Bool) (rt : RT) : Res (Val × Bool) → Prop
+  | .ok x rt' => Ext rt rt' ∧ rt'.ctx = rt.ctx ∧ rt'.content = rt.content ∧ OpenRel b x.2 rt rt'
+  | .err _ rt' => Ext rt rt'
+  | .crash _ rt' => Ext rt rt'
+  | _ => True
+
+theorem ext_popIf (c : Bool) {a b : RT} (e : Ext a b) : Ext a (if c then popScope b else b) := by
+  cases c
+  · exact e
+  · exact Ext.of_right (popScope_fields b).2 e
+
+theorem post_execListGo (hr : RecGood r) (env : Env) :
+    ∀ (l : List Stmt) (rv : Val) (b : Bool) (rt : RT), WF rt → PostGo b rt (execListGo r env l rv b rt) := by
+  intro l
+  induction l with
+  | nil => intro rv b rt _; exact ⟨Ext.refl rt, rfl, rfl, .inl ⟨rfl, rfl⟩⟩
+  | cons s rest ih =>
+    intro rv b rt hwf
+    unfold execListGo
+    have h1 := post_execStmt hr env b s rt hwf
+    cases hs : execStmt r env b s rt with
+    | ok x rt1 =>
+      rw [hs] at h1
+      obtain ⟨ret, rv2, ins⟩ := x
+      obtain ⟨e1, c1, ct1, o1⟩ := h1
+      dsimp only
+      have h2 := ih (if isReturnStmt s then rv2 else if ret.isValid then ret else rv) ins rt1 (e1.wf hwf)
+      cases hg : execListGo r env rest (if isReturnStmt s = true then rv2 else if ret.isValid = true then ret else rv) ins rt1 with
+      | ok y rt2 =>
+        rw [hg] at h2
+        obtain ⟨e2, c2, ct2, o2⟩ := h2
+        refine ⟨e1.trans e2, c2.trans c1, ct2.trans ct1, ?_⟩
+        simp only at o1
+        rcases o1 with ⟨hb1, hs1⟩ | ⟨hb1, hb1', hs1⟩
+        · rcases o2 with ⟨hb2, hs2⟩ | ⟨hb2, hb2', hs2⟩
+          · exact .inl ⟨hb2.trans hb1, hs2.trans hs1⟩
+          · exact .inr ⟨hb1 ▸ hb2, hb2', by rw [hs2]; exact hs1⟩
+        · rcases o2 with ⟨hb2, hs2⟩ | ⟨hb2, hb2', hs2⟩
+          · exact .inr ⟨hb1, hb2.trans hb1', by rw [hs2]; exact hs1⟩
+          · rw [hb1'] at hb2; cases hb2
+      | err e rt2 => rw [hg] at h2; exact e1.trans h2
+      | crash m rt2 => rw [hg] at h2; exact e1.trans h2
+      | fuel => trivial
+      | unsupported w => trivial
+    | err e rt1 => rw [hs] at h1; exact ext_popIf _ h1
+    | crash m rt1 => rw [hs] at h1; exact ext_popIf _ h1
+    | fuel => trivial
+    | unsupported w => trivial
+
+theorem good_execListF (hr : RecGood r) (env : Env) (l : List Stmt) : Good (execListF r env l) := by
+  refine ⟨fun rt hwf => ?_⟩
+  unfold execListF
+  have h := post_execListGo hr env l .invalid false rt hwf
+  cases hg : execListGo r env l .invalid false rt with
+  | ok x rt1 =>
+    rw [hg] at h
+    obtain ⟨v, ins⟩ := x
+    obtain ⟨e1, c1, ct1, o1⟩ := h
+    dsimp only
+    simp only at o1
+    rcases o1 with ⟨hb, hs⟩ | ⟨_, hb', hs⟩
+    · subst hb; exact ⟨e1, ⟨hs, c1, ct1⟩⟩
+    · subst hb'
+      obtain ⟨ps, psame⟩ := popScope_fields rt1
+      exact ⟨Ext.of_right psame e1, ⟨by rw [show (if true = true then popScope rt1 else rt1) = popScope rt1 from rfl, ps, hs],
+        by rw [show (if true = true then popScope rt1 else rt1) = popScope rt1 from rfl, psame.1, c1],
+        by rw [show (if true = true then popScope rt1 else rt1) = popScope rt1 from rfl, psame.2.1, ct1]⟩⟩
+  | err e rt1 => rw [hg] at h; exact h
+  | crash m rt1 => rw [hg] at h; exact h
+  | fuel => trivial
+  | unsupported w => trivial
+
+/-- one level of the interpreter preserves the invariant -/
+theorem recGood_step (hr : RecGood r) : RecGood (stepRec r) :=
+  ⟨fun env e => good_evalExprF hr env e, fun env l => good_execListF hr env l, fun env e => good_isSetF hr env e⟩
+
+/-- the invariant holds at every fuel level -/
+theorem recGood_recAt : ∀ n, RecGood (recAt n)
+  | 0 => recGood_bottom
+  | n + 1 => recGood_step (recGood_recAt n)
 
 end JetVerif.Eval
